@@ -282,21 +282,21 @@ const (
 func (msi *MorxSubtableInsertion) nInsertions() int {
 	// find the maximum index needed in the insertions array,
 	// taking into account the number of insertions
-	var maxi uint16
+	var maxi int // the sums below do not fit in an uint16
 	for _, entry := range msi.Entries {
 		currentIndex, markedIndex := entry.AsMorxInsertion()
 		if currentIndex != 0xFFFF {
-			indexEnd := currentIndex + (entry.Flags&MICurrentInsertCount)>>5
+			indexEnd := int(currentIndex) + int((entry.Flags&MICurrentInsertCount)>>5)
 			if indexEnd > maxi {
 				maxi = indexEnd
 			}
 		}
 		if markedIndex != 0xFFFF {
-			indexEnd := markedIndex + entry.Flags&MIMarkedInsertCount
+			indexEnd := int(markedIndex) + int(entry.Flags&MIMarkedInsertCount)
 			if indexEnd > maxi {
 				maxi = indexEnd
 			}
 		}
 	}
-	return int(maxi)
+	return maxi
 }
